@@ -587,6 +587,19 @@ class Evaluator:
     def exec_for(self, s, p, fr):
         if s.orelse:
             raise Undecided("for-else", fr.f.loc(s))
+        # for i, x in enumerate(<sequence>[, start])
+        if isinstance(s.iter, ast.Call) and getattr(s.iter.func, "id", None) == "enumerate" and s.iter.args \
+                and isinstance(s.target, ast.Tuple) and len(s.target.elts) == 2 and all(isinstance(e, ast.Name) for e in s.target.elts):
+            base = self.eval(s.iter.args[0], p.env, fr)
+            start = Rat.const(0)
+            if len(s.iter.args) > 1:
+                start = _as_rat(self.eval(s.iter.args[1], p.env, fr))
+            for k in s.iter.keywords:
+                if k.arg == "start":
+                    start = _as_rat(self.eval(k.value, p.env, fr))
+            if isinstance(base, SeqV) and base.kind == "seq" and start is not None:
+                return self.element_loop(s, p, fr, base, s.target.elts[1].id, by_index=False, lo=Rat.const(0), hi=Rat.atom("N"),
+                                         idx_var=s.target.elts[0].id, idx_start=start)
         it = self.eval(s.iter, p.env, fr)
         # element loop directly over the sequence (or a per-residue map)
         if isinstance(it, SeqV) and isinstance(s.target, ast.Name):
@@ -646,7 +659,7 @@ class Evaluator:
             return out
         raise Undecided("loop over %s not modelled" % unparse(s.iter)[:50], fr.f.loc(s))
 
-    def element_loop(self, s, p, fr, base, var, by_index, lo, hi):
+    def element_loop(self, s, p, fr, base, var, by_index, lo, hi, idx_var=None, idx_start=None):
         """finite case split over the letters; accumulators become linear forms over cnt[*]"""
         full = lo.equals(Rat.const(0)) and hi.equals(Rat.atom("N"))
         dom = "" if full else "|%r..%r" % (lo, hi)
@@ -682,6 +695,9 @@ class Evaluator:
             else:
                 env[var] = L if base.kind == "seq" else Rat.atom("@el:" + base.key())
                 fr2 = fr
+                if idx_var is not None:
+                    env[idx_var] = Rat.atom("@i") + idx_start
+                    fr2 = fr.with_elem(L, "@i")
             if base.kind != "seq":
                 raise Undecided("element loop over %s" % base.key(), fr.f.loc(s))
             res = self.exec_block(s.body, [Path([], "live", None, env)], fr2)
@@ -983,6 +999,9 @@ class Evaluator:
         if name in ("In", "NotIn"):
             if isinstance(b, ListAcc):
                 b = list(b.items)
+            if isinstance(a, AStr) and isinstance(b, (list, tuple)) and all(isinstance(x, str) for x in b):
+                c = ("opaque", "%s in %s" % (a.tag, "".join(sorted(b))))
+                return c if name == "In" else c_not(c)
             if isinstance(a, AChar) and isinstance(b, (list, tuple)) and all(isinstance(x, str) for x in b):
                 c = ("opaque", "%s in %s" % (a.tag, "".join(sorted(b))))
                 return c if name == "In" else c_not(c)
@@ -1096,6 +1115,30 @@ class Evaluator:
             raise _NeedSplit(node, [([c], self.eval(node.body, env, fr)), ([c_not(c)], self.eval(node.orelse, env, fr))])
         if isinstance(node, ast.ListComp) and len(node.generators) == 1:
             return self.eval_listcomp(node, env, fr)
+        if isinstance(node, ast.DictComp) and len(node.generators) == 1 and not node.generators[0].ifs:
+            g = node.generators[0]
+            it = g.iter
+            src = None
+            pairs = None
+            if isinstance(it, ast.Call) and isinstance(it.func, ast.Attribute) and it.func.attr == "items" and not it.args:
+                src = self.eval(it.func.value, env, fr)
+                if isinstance(src, dict) and isinstance(g.target, ast.Tuple) and len(g.target.elts) == 2:
+                    pairs = [((g.target.elts[0], k), (g.target.elts[1], v)) for k, v in src.items()]
+            else:
+                src = self.eval(it, env, fr)
+                if isinstance(src, dict) and isinstance(g.target, ast.Name):
+                    pairs = [((g.target, k),) for k in src.keys()]
+                elif isinstance(src, (list, tuple, str)) and isinstance(g.target, ast.Name):
+                    pairs = [((g.target, k),) for k in src]
+            if pairs is not None:
+                out = {}
+                for binds in pairs:
+                    e2 = dict(env)
+                    for t, v in binds:
+                        self.assign(t, v, e2, fr, [])
+                    out[_pykey(self.eval(node.key, e2, fr))] = self.eval(node.value, e2, fr)
+                return out
+            raise Undecided("dict comprehension not modelled", fr.f.loc(node))
         raise Undecided("expression kind %s not modelled: %s" % (type(node).__name__, unparse(node)[:60]),
                         fr.f.loc(node))
 
@@ -1296,6 +1339,10 @@ class Evaluator:
                 return _StrAcc(a.s + b)
             if isinstance(a, str) and isinstance(b, str):
                 return a + b
+            if isinstance(a, AChar):
+                a = AStr(a.tag)
+            if isinstance(b, AChar):
+                b = AStr(b.tag)
             if isinstance(a, (AStr, str)) and isinstance(b, (AStr, str)):
                 return astr_cat(a, b)
             if isinstance(a, (list, tuple)) and isinstance(b, (list, tuple)) and type(a) is type(b):
@@ -1365,6 +1412,41 @@ class Evaluator:
             if t == "str":
                 return isinstance(v, str)
             raise Undecided("isinstance(..., %s)" % t, fr.f.loc(node))
+        if name == "sum" and len(args) == 1 and isinstance(args[0], (ast.GeneratorExp, ast.ListComp)) and len(args[0].generators) == 1:
+            g = args[0].generators[0]
+            it = self.eval(g.iter, env, fr)
+            if isinstance(it, SeqV) and it.kind == "seq" and isinstance(g.target, ast.Name):
+                # commutative fold over the residues: finite case split over the letters
+                tot = Rat.const(0)
+                for L in self.universe:
+                    e2 = dict(env)
+                    e2[g.target.id] = L
+                    keep = True
+                    for cnd in g.ifs:
+                        c = self.cond(cnd, e2, fr)
+                        if c is False:
+                            keep = False
+                        elif c is not True:
+                            raise Undecided("generator filter on a symbolic value", fr.f.loc(node))
+                    if keep:
+                        v = _as_rat(self.eval(args[0].elt, e2, fr))
+                        if v is None:
+                            raise Undecided("generator element is not numeric", fr.f.loc(node))
+                        tot = tot + v * Rat.atom("cnt[%s]" % L)
+                return tot
+        if name in ("frozenset", "set") and len(args) == 1:
+            v = self.eval(args[0], env, fr)
+            if isinstance(v, (str, list, tuple)):
+                out = []
+                for x in v:
+                    if x not in out:
+                        out.append(x)
+                return out
+        if isinstance(fn, ast.Attribute) and isinstance(fn.value, ast.Name) and fn.value.id == "dict" and fn.attr == "fromkeys" and len(args) in (1, 2):
+            keys = self.eval(args[0], env, fr)
+            val = self.eval(args[1], env, fr) if len(args) == 2 else None
+            if isinstance(keys, (str, list, tuple)):
+                return {_pykey(k) if not isinstance(k, str) else k: val for k in keys}
         if name == "dict" and len(args) <= 1 and not node.keywords:
             if not args:
                 return {}
